@@ -9,5 +9,7 @@ if ! git -C $WT apply "$PATCH"; then echo "PATCH DOES NOT APPLY"; exit 2; fi
 cd /verif
 VERIF_REPO=$WT bin/check $PID --tier $TIER > /tmp/seed_try_out.txt 2>&1; rc=$?
 git -C $WT checkout -q -- . ; git -C $WT clean -fdq
+# the generated models (coq/theories/Generated) were regenerated from the scratch tree: put back what /repo says
+bin/gen telemetry >/dev/null 2>&1; bin/gen handlers >/dev/null 2>&1
 grep -E "VIOLATION|KNOWN|quick:|thorough:" /tmp/seed_try_out.txt | cut -c1-220 | head -5
 echo "rc=$rc"
